@@ -478,10 +478,7 @@ def describe(m, prog=None, depth=0):
     return s
 
 
-_EFF = {}
-
-
 def get_effects(prog):
-    if id(prog) not in _EFF:
-        _EFF[id(prog)] = Effects(prog)
-    return _EFF[id(prog)]
+    if "effects" not in prog.cache:
+        prog.cache["effects"] = Effects(prog)
+    return prog.cache["effects"]
